@@ -842,7 +842,9 @@ class Evaluator:
                 args = [self.expr(a) for a in argnodes]
                 if self.st is None:
                     return NEVER
-                return ("ctor", n.get("ctor_of"), tuple(args))
+                t = ("ctor", n.get("ctor_of"), tuple(args))
+                self._site(node=n, kind="ctor", callee=n.get("ctor_of"), name="ctor", args=list(args), argnodes=argnodes, term=t, ty=n.get("ty"))
+                return t
             args = []
             for a in argnodes:
                 args.append(self.expr(a))
